@@ -231,20 +231,6 @@ func instrumentFile(fset *token.FileSet, p *pkgInfo, f *ast.File, name, src, mod
 	var edits []edit
 	var tail []string
 	counter := 0
-	pure := func(e ast.Expr) bool {
-		for {
-			switch x := e.(type) {
-			case *ast.Ident:
-				return true
-			case *ast.SelectorExpr:
-				e = x.X
-			case *ast.ParenExpr:
-				e = x.X
-			default:
-				return false
-			}
-		}
-	}
 	for _, im := range f.Imports {
 		path := strings.Trim(im.Path.Value, `"`)
 		switch path {
@@ -276,14 +262,10 @@ func instrumentFile(fset *token.FileSet, p *pkgInfo, f *ast.File, name, src, mod
 				return true
 			}
 			site := fmt.Sprintf("%s:%d", rel, fset.Position(x.Pos()).Line)
-			if !pure(x.X) {
-				r.Unseamed = append(r.Unseamed, site+" map range over a non-trivial expression (left as is)")
-				edits = append(edits, edit{off(x.Body.Lbrace) + 1, off(x.Body.Lbrace) + 1, " simhook.Tick();"})
-				return true
-			}
 			r.MapSites = append(r.MapSites, site)
 			counter++
-			m := "(" + text(x.X) + ")"
+			iv := fmt.Sprintf("__simi%d", counter)
+			sv := fmt.Sprintf("__sims%d", counter)
 			okv := fmt.Sprintf("__simok%d", counter)
 			kv := fmt.Sprintf("__simk%d", counter)
 			keyText, valText := "", ""
@@ -293,29 +275,30 @@ func instrumentFile(fset *token.FileSet, p *pkgInfo, f *ast.File, name, src, mod
 			if x.Value != nil {
 				valText = text(x.Value)
 			}
+			// A three-clause loop: the ranged expression is evaluated exactly once (whatever it
+			// is), a label in front of the statement still belongs to a `for`, `continue` runs
+			// the post statement, and entries deleted during the iteration are skipped as Go does.
 			var sb strings.Builder
+			fmt.Fprintf(&sb, "for %s, %s := 0, simhook.Range(%s, %q); %s < len(%s.Keys); %s++ { simhook.Tick();", iv, sv, text(x.X), site, iv, sv, iv)
 			if x.Tok == token.DEFINE {
 				kn := keyText
 				if kn == "" || kn == "_" {
 					kn = kv
 				}
-				fmt.Fprintf(&sb, "for _, %s := range simhook.Keys(%s, %q) { simhook.Tick();", kn, m, site)
+				fmt.Fprintf(&sb, " %s := %s.Keys[%s];", kn, sv, iv)
 				if valText != "" && valText != "_" {
-					fmt.Fprintf(&sb, " %s, %s := %s[%s]; if !%s { continue };", valText, okv, m, kn, okv)
+					fmt.Fprintf(&sb, " %s, %s := %s.M[%s]; if !%s { continue };", valText, okv, sv, kn, okv)
 				} else {
-					fmt.Fprintf(&sb, " if _, %s := %s[%s]; !%s { continue };", okv, m, kn, okv)
+					fmt.Fprintf(&sb, " if _, %s := %s.M[%s]; !%s { continue };", okv, sv, kn, okv)
 				}
-				if keyText != "" && keyText != "_" {
-					fmt.Fprintf(&sb, " _ = %s;", kn)
-				}
+				fmt.Fprintf(&sb, " _ = %s;", kn)
 			} else {
-				fmt.Fprintf(&sb, "for _, %s := range simhook.Keys(%s, %q) { simhook.Tick();", kv, m, site)
-				fmt.Fprintf(&sb, " if _, %s := %s[%s]; !%s { continue };", okv, m, kv, okv)
+				fmt.Fprintf(&sb, " %s := %s.Keys[%s]; if _, %s := %s.M[%s]; !%s { continue };", kv, sv, iv, okv, sv, kv, okv)
 				if keyText != "" && keyText != "_" {
 					fmt.Fprintf(&sb, " %s = %s;", keyText, kv)
 				}
 				if valText != "" && valText != "_" {
-					fmt.Fprintf(&sb, " %s = %s[%s];", valText, m, kv)
+					fmt.Fprintf(&sb, " %s = %s.M[%s];", valText, sv, kv)
 				}
 			}
 			edits = append(edits, edit{off(x.For), off(x.Body.Lbrace) + 1, sb.String()})
